@@ -19,7 +19,7 @@ import os, sys, random, io, contextlib
 sys.path.insert(0, os.path.dirname(os.path.dirname(os.path.abspath(__file__))))
 import numpy as np
 import scipy.ndimage
-from common import runner, enginea
+from common import runner, enginea, kernels
 from pysched import pysched
 import argparse, types, collections
 
@@ -30,6 +30,47 @@ STRUCT[0, 1, 1] = STRUCT[2, 1, 1] = 1
 COLS = ["sc", "fc", "omega", "Number_of_pixels", "avg_intensity", "s_raw", "f_raw", "sigs", "sigf", "covsf", "sigo", "covso",
         "covfo", "sum_intensity", "sum_intensity^2", "IMax_int", "IMax_s", "IMax_f", "IMax_o", "Min_s", "Max_s", "Min_f",
         "Max_f", "Min_o", "Max_o", "dety", "detz", "onfirst", "onlast", "spot3d_id"]
+
+
+class RecordingKernels(object):
+    """ImageD11.cImageD11 as labelimage sees it; the calls of the kernels that run without the GIL are recorded with
+    copies of their arguments before and of everything they leave behind"""
+    def __init__(self, real, log):
+        self._real, self._log = real, log
+
+    def __getattr__(self, n):
+        return getattr(self._real, n)
+
+    def bloboverlaps(self, b1, n1, r1, b2, n2, r2, verbose=0):
+        ns, nf = b1.shape
+        vals = {"labels1": b1.copy(), "npk1": int(n1), "results1": np.array(r1, float, copy=True), "labels2": b2.copy(), "npk2": int(n2),
+                "results2": np.array(r2, float, copy=True), "verbose": 0, "ns": ns, "nf": nf}
+        ret = self._real.bloboverlaps(b1, n1, r1, b2, n2, r2, verbose)
+        if r1.flags.c_contiguous and r2.flags.c_contiguous:
+            self._log.append(("bloboverlaps", vals, {"labels1": "io", "results1": "io", "labels2": "io", "results2": "io"},
+                              {"return": int(ret), "labels1": b1.copy(), "results1": r1.copy(), "labels2": b2.copy(), "results2": r2.copy()}))
+        return ret
+
+    def blobproperties(self, data, labels, npk, omega=0.0, verbose=0):
+        ns, nf = labels.shape
+        vals = {"data": np.array(data, np.float32, copy=True), "labels": labels.copy(), "np": int(npk), "omega": float(omega), "verbose": 0,
+                "ns": ns, "nf": nf, "results": [int(npk), cImageD11_NPROPERTY()]}
+        res = self._real.blobproperties(data, labels, npk, omega=omega, verbose=verbose)
+        self._log.append(("blobproperties", vals, {"data": "in", "labels": "in", "results": "out"}, {"results": np.array(res, copy=True)}))
+        return res
+
+    def blob_moments(self, res):
+        if res.flags.c_contiguous and len(res):
+            vals = {"results": np.array(res, float, copy=True), "np": len(res)}
+            self._real.blob_moments(res)
+            self._log.append(("blob_moments", vals, {"results": "io"}, {"results": res.copy()}))
+        else:
+            self._real.blob_moments(res)
+
+
+def cImageD11_NPROPERTY():
+    from ImageD11 import cImageD11
+    return int(cImageD11.NPROPERTY)
 
 
 def make_scene(rnd, g, nfr, ns, nf):
@@ -115,9 +156,15 @@ class C12(object):
                     "strategy": rnd.choice(["random", "random", "pct", "rr", "rtc"]), "p_inv": rnd.choice([1, 2, 4, 16, 64]),
                     "quantum": rnd.choice([1, 3, 10]), "pct_d": rnd.choice([1, 2, 3]), "sseed": rnd.getrandbits(48),
                     "eager_sleep": rnd.random() < 0.35}
-        return {"entry": "labelimage-history", "nfr": nfr, "ns": ns, "nf": nf, "wseed": rnd.getrandbits(48),
-                "threshold": rnd.choice([0.0, 5.0, 100.0, -5000.0]), "omega0": rnd.choice([0.0, -10.0, 90.5]), "ostep": ostep,
-                "write2d": rnd.random() < 0.4, "cfg": cfg}
+        d = {"entry": "labelimage-history", "nfr": nfr, "ns": ns, "nf": nf, "wseed": rnd.getrandbits(48),
+             "threshold": rnd.choice([0.0, 5.0, 100.0, -5000.0]), "omega0": rnd.choice([0.0, -10.0, 90.5]), "ostep": ostep,
+             "write2d": rnd.random() < 0.4, "cfg": cfg}
+        if not big and rnd.random() < 0.2:
+            # a second labelimage (another threshold / detector, as the threaded peaksearcher runs them) whose GIL-free
+            # kernel calls overlap in time with those of the first
+            d["concurrent"] = {"wseed": rnd.getrandbits(48), "nfr": rnd.choice([2, 3, 4]), "ns": rnd.choice([4, 6, 9]),
+                               "nf": rnd.choice([4, 7, 10]), "ccfg": enginea.draw_cfg(rnd, max_team=4), "gstyle": rnd.choice([0, 1])}
+        return d
 
     def describe(self, desc):
         return {k: desc[k] for k in desc if k != "replay"}
@@ -149,7 +196,10 @@ class C12(object):
         sim.begin_run()
         out, spt = io.StringIO(), io.StringIO()
         viol = None
+        callsA = []
+        real_c = self.li.cImageD11
         try:
+            self.li.cImageD11 = RecordingKernels(real_c, callsA)
             with contextlib.redirect_stdout(io.StringIO()):
                 lab = self.li.labelimage((ns, nf), fileout=out, sptfile=spt)
                 for k in range(nfr):
@@ -159,7 +209,11 @@ class C12(object):
                     lab.mergelast()
                 lab.finalise()
         except Exception as e:
+            if runner.is_harness_exception(e):
+                raise
             viol = {"class": "raises", "key": "labelimage:raises", "detail": "%s: %s" % (type(e).__name__, e)}
+        finally:
+            self.li.cImageD11 = real_c
         st = sim.stats()
         ref, ncomp = scipy.ndimage.label(M, STRUCT)
         rows = []
@@ -169,6 +223,9 @@ class C12(object):
                     continue
                 rows.append([float(x) for x in line.split()])
             viol = self.compare(rows, ref, ncomp, vol, omegas, M)
+        nconc = 0
+        if viol is None and desc.get("concurrent"):
+            viol, nconc = self.exec_concurrent(desc, ctx, callsA)
         multi = 0
         if ncomp:
             fr = [np.unique(np.nonzero(ref == c + 1)[0]).size for c in range(min(ncomp, 50))]
@@ -179,9 +236,55 @@ class C12(object):
         meas["components"] = ncomp
         meas["components_spanning_frames"] = multi
         meas["empty_frames"] = int((M.reshape(nfr, -1).sum(axis=1) == 0).sum())
+        meas["concurrent_kernel_call_pairs"] = nconc
         return {"digest": enginea.sha(st["digest"], out.getvalue()),
                 "sig": "%s/%s/%s/%s/%s" % (enginea.sha(M, vol), thr, desc["ostep"], cfg.get("dset_cap"), cfg["team"]),
                 "nontrivial": multi > 0, "viol": viol, "measures": meas}
+
+    def exec_concurrent(self, desc, ctx, callsA):
+        """the kernels f2py runs without the GIL (blobproperties, bloboverlaps, blob_moments), as issued by two labelimage
+        objects working on their own frames, overlapping in time: each call must leave what it leaves when made alone"""
+        sim = ctx.sim
+        c = desc["concurrent"]
+        d2 = dict(desc, wseed=c["wseed"], nfr=c["nfr"], ns=c["ns"], nf=c["nf"])
+        d2.pop("vol", None)
+        kind, M, vol, omegas = self.scene(d2)
+        callsB = []
+        real_c = self.li.cImageD11
+        enginea.apply_cfg(sim, dict(desc["cfg"], team=1), strict=0, track_conflicts=0, pct_est=100, step_cap=4000000000)
+        sim.begin_run()
+        try:
+            self.li.cImageD11 = RecordingKernels(real_c, callsB)
+            with contextlib.redirect_stdout(io.StringIO()):
+                lab = self.li.labelimage(M.shape[1:], fileout=io.StringIO(), sptfile=io.StringIO())
+                for k in range(M.shape[0]):
+                    lab.peaksearch(vol[k], desc["threshold"], float(omegas[k]))
+                    lab.mergelast()
+                lab.finalise()
+        finally:
+            self.li.cImageD11 = real_c
+        npairs = 0
+        for name in ("bloboverlaps", "blobproperties", "blob_moments"):
+            A = [x for x in callsA if x[0] == name][:3]
+            B = [x for x in callsB if x[0] == name][:3]
+            for (n_, va, ra, wantA), (n2_, vb, rb, wantB) in zip(A, B):
+                outs, st = kernels.run_concurrent(sim, [(name, va, ra), (name, vb, rb)], c["ccfg"], gstyle=c["gstyle"],
+                                                  pct_est=max(50, 20 * (M[0].size + desc["ns"] * desc["nf"])))
+                npairs += 1
+                v = enginea.viol_from_stats(st, name, {})
+                if v is not None:
+                    v["key"] = name + ":concurrent:" + v["class"]
+                    return v, npairs
+                for who, (ret, arrs), want in (("first", outs[0], wantA), ("second", outs[1], wantB)):
+                    for an, w in want.items():
+                        got = ret if an == "return" else arrs[an]
+                        same = (got == w) if an == "return" else (np.asarray(got).tobytes() == np.asarray(w).tobytes())
+                        if not same:
+                            return {"class": "not-reentrant", "key": name + ":not-reentrant",
+                                    "detail": "two labelimage objects inside %s at the same time, each on its own frames: the %s one "
+                                              "gets another %s than when it makes the same call alone (state shared between calls)" %
+                                              (name, who, an)}, npairs
+        return None, npairs
 
     # ------------------------------------------------------------------ tier 2: the threaded pipeline
     def exec_pipeline(self, desc, ctx):
